@@ -31,6 +31,10 @@ DIRECTED = [
     [("run", False, False), ("editT", 1), ("killrun", False, True, "replace", "G_order_revision_cache.tsv", "before"), ("editT", 2), ("run", True, True)],
     [("run", False, False), ("editT", 2), ("killrun", True, True, "replace", "G_nameless_revision_cache.tsv", "after"), ("editT", 1), ("editG", 1), ("run", True, True), ("run", True, True)],
     [("run", False, False), ("editW", 1), ("run", True, False), ("editW", 2), ("run", False, False), ("editW", 0), ("run", False, False)],
+    # the very first run killed during the revision (some pass files in place, no revised annotation yet), the TE annotation corrected,
+    # then the plain command: nothing of the killed revision may stand in for the annotation given now
+    [("killrun", False, False, "replace", "G_order_revision_cache.tsv", "before"), ("editT", 1), ("run", False, False)],
+    [("killrun", False, False, "replace", "Revised_tes.tsv", "before"), ("editT", 2), ("run", False, False), ("run", False, False)],
 ]
 
 
@@ -137,6 +141,13 @@ def oracles(w, recs):
             elif rc_["results"] != fresh["results"]:
                 bad = [f for f in fresh["results"] if rc_["results"].get(f) != fresh["results"][f]]
                 fails.append({"kind": "refresh_not_fresh", "run": i, "files": bad, "extra": sorted(set(rc_["results"]) - set(fresh["results"]))})
+        # a directory that holds no finished intermediate at all (only what a killed revision left under other names): the run has nothing
+        # it may reuse, its results are those of a fresh directory for the files given now
+        pre = rc_["pre"]
+        if pre.get("R") is None and all(c.get("GC") is None and c.get("TC") is None and c.get("OV") is None for c in pre.get("chroms", [])) \
+                and rc_["rc"] == 0 and rc_["results"] != fresh["results"]:
+            bad = [f for f in fresh["results"] if rc_["results"].get(f) != fresh["results"][f]]
+            fails.append({"kind": "run_with_nothing_to_reuse_not_fresh", "run": i, "files": bad})
         only_w = bool(rc_["since"]) and all(o[0] == "editW" for o in rc_["since"])
         if only_w and synced is not None and synced[:2] == (g, t):
             if rc_["rc"] == 0 and rc_["results"] != fresh["results"]:
